@@ -28,7 +28,7 @@ def guarded(stmts):
 
 def programs():
     for (vn, mk), hint in itertools.product(VALUES, HINTS):
-        for pos in ("let", "for", "arg", "ret", "yield", "match", "catch", "mlet_ign", "mlet_id", "mlet_bare", "mlet_call", "for2"):
+        for pos in ("let", "for", "arg", "ret", "yield", "match", "catch", "mlet_ign", "mlet_id", "mlet_bare", "mlet_call", "for2", "for2_ign"):
             reset_ids()
             xs = objects() + [Asg("v", mk())]
             if pos == "let":
@@ -48,6 +48,10 @@ def programs():
                 else:
                     rhs, bare = List(elems), False
                 xs.append(guarded([MLet(["a", mid, "c"], ["Number", hint, "Bool"], rhs, bare), Core("print", [Tuple([Id("a"), Id("c")])])]))
+            elif pos == "for2_ign":
+                # a hinted ignored argument in the middle: the arguments after it must still get their own elements
+                xs.append(guarded([For(["i", "_", "k"], Tuple([Tuple([Int(1), Id("v"), Int(3)]), Tuple([Int(4), Id("v"), Int(6)])]),
+                                       Block([Core("print", [Tuple([Id("i"), Id("k")])])]), tys=["Number", hint, "Number"])]))
             elif pos == "for2":
                 xs.append(guarded([For(["i", "x", "k"], Tuple([Tuple([Int(1), Id("v"), Int(3)])]), Block([Core("print", [Tuple([Id("i"), Id("k")])])]),
                                        tys=["Number", hint, ""])]))
